@@ -1,12 +1,13 @@
 #!/bin/sh
-# usage: eval_mutant.sh <patch.diff> <prop> [<prop> ...]   -- runs the quick checks on a scratch worktree with the patch applied
+# usage: eval_mutant.sh <patch.diff> <prop> [<prop> ...]   -- runs the quick checks on a private scratch worktree of /repo's HEAD
+# with the patch applied (equivalent to: git -C /repo apply <patch>; ./vcheck <prop>; git -C /repo checkout -- .), removes it afterwards.
 PATCH="$1"; shift
-W=/tmp/evalrepo
-HEAD=$(git -C /repo rev-parse HEAD)
-git -C $W checkout -q -f --detach $HEAD && git -C $W clean -fdq
-cp /repo/librebound*.so $W/ 2>/dev/null; git -C $W apply "$PATCH" || { echo "PATCH DOES NOT APPLY"; exit 2; }
+W=$(mktemp -d /tmp/evalrepo.XXXXXX); rmdir $W
+git -C /repo worktree add -q --detach $W HEAD || exit 2
+trap 'git -C /repo worktree remove --force $W 2>/dev/null' EXIT INT TERM
+cp /repo/librebound*.so $W/ 2>/dev/null
+git -C $W apply "$PATCH" || { echo "PATCH DOES NOT APPLY"; exit 2; }
 cd /verif
 for P in "$@"; do
   VERIF_NO_EVIDENCE=1 VERIF_REPO=$W ./vcheck $P --jobs ${JOBS:-12} 2>&1 | grep -E "^VIOLATION|^KNOWN|^C[0-9]+:|TASK-ERROR" | cut -c1-260 | sed "s/^/[$P] /" | head -${LINES_MAX:-8}
 done
-git -C $W checkout -q -f --detach $HEAD
